@@ -9,6 +9,8 @@ open Wire Pen PenShow Red
         choices: u~v>p,u~v>p                             (the pairs the implementation chose, as unpacked, with its product label)
       → ok <bookkeeping: reduced | constraints | idx-empty> # <semantic layer replayed on the same choices: reduced | hi-left>
     mq <SPIN|BINARY> <strength> <terms> <choices>        → ok <bqm> | <auxiliaries>
+    mqg <SPIN|BINARY|-> <strength> <terms> <choices> <given: SPIN|BINARY|-> <lin> <quad> <off>
+                                                         → ok <vartype> <bqm> | <auxiliaries>   (`make_quadratic(..., vartype, bqm)`)
     mqcqm <SPIN|BINARY> <terms> <choices>                → ok <objective>|<label hex>:<lhs of the == 0 constraint>|...
     norm <SPIN|BINARY> <terms>                           → ok <normalised polynomial>
     hoc <SPIN|BINARY> <terms> <keep 0|1> <response variables> <row lab=val,...> <reduction u~v>p,...>
@@ -62,14 +64,23 @@ def answer (line : String) : String :=
   | ["mq", vt, strength, terms, choices] =>
     match vtOf? vt, parseRat? strength, parseRaw terms, parseChoices choices with
     | some vt, some strength, some raw, some choices =>
-      match makeQuadratic vt strength raw (choices.map fun c => (c.1, c.2.1)) with
+      match makeQuadratic [] vt strength raw (choices.map fun c => (c.1, c.2.1)) with
       | some (bag, _, auxs) => "ok " ++ showBq ((Bq.empty vt : Bq Label).apply bag) false ++ "|" ++ String.intercalate "," (auxs.map showLabel)
       | none => "err"
     | _, _, _, _ => "bad-op"
+  | ["mqg", vt, strength, terms, choices, gvt, glin, gquad, goff] =>
+    match parseRat? strength, parseRaw terms, parseChoices choices, parseTerms glin, parseQuad gquad, parseRat? goff with
+    | some strength, some raw, some choices, some glin, some gquad, some goff =>
+      let g : Option (Bq Label) := (vtOf? gvt).map fun gv => { vt := gv, lin := glin, quad := gquad, off := goff }
+      match makeQuadraticOnto g (vtOf? vt) strength raw (choices.map fun c => (c.1, c.2.1)) with
+      | some (res, rvt, _, _, auxs) =>
+        s!"ok {if rvt = VT.spin then "SPIN" else "BINARY"} " ++ showBq res false ++ "|" ++ String.intercalate "," (auxs.map showLabel)
+      | none => "err"
+    | _, _, _, _, _, _ => "bad-op"
   | ["mqcqm", vt, terms, choices] =>
     match vtOf? vt, parseRaw terms, parseChoices choices with
     | some vt, some raw, some choices =>
-      match makeQuadraticCqm vt raw (choices.map fun c => (c.1, c.2.1)) with
+      match makeQuadraticCqm [] vt raw (choices.map fun c => (c.1, c.2.1)) with
       | some (obj, cons) =>
         "ok " ++ showBq ((Bq.empty vt : Bq Label).apply obj) false ++ "|"
           ++ String.intercalate "|" (cons.map fun c => toHex c.1 ++ ":" ++ showBq ((Bq.empty vt : Bq Label).apply c.2) false)
